@@ -56,6 +56,7 @@ type sibItem struct {
 	ra         string // type-named AND resolved: equal for a renamed local, different for a local defined differently
 	sn, sr, sa string // the side of each form's cut on which the path is refused or skipped ("" unknown)
 	uses       []string
+	pos        token.Pos // where the comparison stands (not part of the recorded residual)
 }
 
 func (it sibItem) String() string { return it.sign + it.n + "¦" + it.r + "¦" + it.a }
@@ -138,7 +139,7 @@ func siblingDiffs(all map[string][]cmpSite) []sibDiff {
 			mk := func(ss []cmpSite, sign string) []sibItem {
 				var out []sibItem
 				for _, s := range ss {
-					it := sibItem{sign: sign, n: canonCut(s.p, s.op), r: canonCut(s.pr, s.op), a: canonCutAbs(s.pa, s.op)}
+					it := sibItem{sign: sign, n: canonCut(s.p, s.op), r: canonCut(s.pr, s.op), a: canonCutAbs(s.pa, s.op), pos: s.pos}
 					it.sa = cutSide(lastAbsPoly, s.rop)
 					it.ra = canonCutAbs(s.pra, s.op)
 					it.sn, it.sr = cutSide(s.p, s.rop), cutSide(s.pr, s.rop)
@@ -171,7 +172,14 @@ func siblingDiffs(all map[string][]cmpSite) []sibDiff {
 			// variable of this copy, in which case another value of the same type was put in its place
 			forkFn := f + "." + name
 			cancel(func(x, y sibItem) bool {
-				return x.a == y.a && x.ra == y.ra && pol(x.sa, y.sa) && len(stillDeclaredIn(forkFn, []string{x.n}, append([]string{y.n, y.r}, y.uses...))) == 0
+				if !(x.a == y.a && x.ra == y.ra && pol(x.sa, y.sa)) {
+					return false
+				}
+				// (still a variable that is visible where this copy makes the comparison)
+				stillDeclaredAt = y.pos
+				sw := stillDeclaredIn(forkFn, []string{x.n}, append([]string{y.n, y.r}, y.uses...))
+				stillDeclaredAt = token.NoPos
+				return len(sw) == 0
 			})
 			// what is left on one side may still be made by the other copy where it governs no refusal there (a
 			// `continue` guard hoisted into a condition around the loop, a test that selects instead of skipping)
@@ -407,6 +415,9 @@ func init() {
 }
 
 // stillDeclaredIn: identifiers mentioned by want but not by got that are still declared as variables in fn.
+// stillDeclaredAt: when set, the position at which the passed-over variable would have had to be visible.
+var stillDeclaredAt token.Pos
+
 func stillDeclaredIn(fn string, want, got []string) []string {
 	d, ok := cmpDecls[fn]
 	if !ok {
@@ -427,7 +438,12 @@ func stillDeclaredIn(fn string, want, got []string) []string {
 			decl := false
 			ast.Inspect(d.fd, func(n ast.Node) bool {
 				if id, ok := n.(*ast.Ident); ok && id.Name == t && d.pk.TypesInfo.Defs[id] != nil {
-					if _, isVar := d.pk.TypesInfo.Defs[id].(*types.Var); isVar {
+					if v, isVar := d.pk.TypesInfo.Defs[id].(*types.Var); isVar {
+						// (when the place of the comparison is known) the variable is visible there: one of the same
+						// name that lives in another loop or branch could not have been used and was not passed over
+						if stillDeclaredAt != token.NoPos && v.Parent() != nil && !(v.Parent().Contains(stillDeclaredAt) && v.Pos() < stillDeclaredAt) {
+							return true
+						}
 						decl = true
 					}
 				}
